@@ -485,7 +485,8 @@ def _connection_changed(h, g):
 
 def _init(h, g):
     if not h.symbolic:
-        return
+        from replay import native_readings as NR
+        return NR.airtouch_init(h, g, GEN)
     E = Env(h, g, "CLOSED")
     it = h.it
     t0 = aio.now(it)
@@ -554,10 +555,8 @@ def _shutdown(h, g):
 
 
 def _misc(h, g):
-    if not h.symbolic:
-        return
     G = GEN[g]
-    E = Env(h, g, "CONNECTED")
+    E = make_env(h, g, "CONNECTED")
     r = h.method(E.at, "check_for_updates")
     sent = E.sock.sent
     h.oblige("check_for_updates sends exactly one console-version request, retried as an idempotent command",
@@ -578,6 +577,22 @@ def _misc(h, g):
     h.setattr(E.at, "_console_version", cv)
     h.oblige("update_available / console_versions read the stored version message",
              And(h.eq(h.prop(E.at, "update_available").value, True), h.eq(h.prop(E.at, "console_versions").value, ["1.2.3"])))
+    if not h.symbolic:
+        async def s(*a, **k):
+            pass
+
+        async def never(*a, **k):
+            pass
+        before = set(E.at._subscribers)
+        E.at.subscribe(s)
+        E.at.subscribe(s)
+        h.oblige("subscribe twice registers the callable once, in the set the version update notifies",
+                 set(E.at._subscribers) - before == {s} and len(E.at._subscribers) == len(before) + 1)
+        E.at.unsubscribe(s)
+        h.oblige("unsubscribe removes it (and only it)", set(E.at._subscribers) == before)
+        r2 = h.method(E.at, "unsubscribe", never)
+        h.oblige("unsubscribing a callable that was never subscribed is harmless", r2.ok)
+        return
     from pyvc.world import SubscriberModel
     s = SubscriberModel(E.w, "s")
     h.method(E.at, "subscribe", s)
@@ -711,7 +726,8 @@ def _dispatch_any(h, g):
     with its id (exactly one update call, with that record) and skipped when no entity has that id.  With the update
     contracts (latest record stored) this is 'last writer wins' for partial frames, repeats and unknown ids."""
     if not h.symbolic:
-        return
+        from replay import native_readings as NR
+        return NR.airtouch_dispatch_any(h, g, GEN)
     G = GEN[g]
     E = Env(h, g, "CONNECTED")
     kind = h.choice("kind", ["acstatus", "timer", "zstatus"])
@@ -912,7 +928,8 @@ def set_of(h, items):
 def _poll_loop(h):
     """AT4: a GroupStatusRequest whenever no group status arrived for 300 s, for as long as the silence lasts."""
     if not h.symbolic:
-        return
+        from replay import native_readings as NR
+        return NR.airtouch_poll_loop(h, GEN)
     g = 4
     E = Env(h, g, "CONNECTED")
     T = h.get(GEN[g]["api"] + ":_GROUP_STATUS_TIMEOUT")
